@@ -8,7 +8,7 @@
 //! job file: first line = command, rest = payload
 //!   build                       payload = assembler source           -> build_str
 //!   buildfile <main> [inc..]    payload ignored                      -> build_file(main, {inc..})
-//!   hex <code|eeprom> [prior]   (prior: what the output path already holds: long (default) | none | empty | prefix | same) payload = hex string of image bytes  -> write_*_hex to a temp file, returns its text
+//!   hex <code|eeprom> [prior [name]]   (name: file name to write to, default out.hex; prior: what the output path already holds: long (default) | none | empty | prefix | same) payload = hex string of image bytes  -> write_*_hex to a temp file, returns its text
 //!   tree <main> [inc..]         payload = files, each introduced by a line `@@ <relative path>`; `@ROOT@` in a file stands for
 //!                               the directory they are written to; `@@ <link> -> <target>` makes a symbolic link -> fresh directory, made the working directory,
 //!                               build_file(main, {inc..}), directory removed
@@ -139,11 +139,12 @@ fn run_job(text: &str, scratch: &PathBuf) -> String {
                 ram_filling: 0,
                 messages: vec![],
             };
-            let out = scratch.join("out.hex");
+            let prior = words.next().unwrap_or("long").to_string();
+            let out = scratch.join(words.next().unwrap_or("out.hex"));
             let _ = fs::remove_file(&out);
             // what the output path holds already: by default a (longer) file, as after an earlier, larger build -- the writer has to replace
             // it, not overwrite its head; `none`, `empty`, `prefix` (the first two lines of this very output), `same` (this very output)
-            match words.next().unwrap_or("long") {
+            match prior.as_str() {
                 "none" => {}
                 "empty" => fs::write(&out, "").unwrap(),
                 p @ ("prefix" | "same") => {
